@@ -259,8 +259,11 @@ class LiteralProvider(LoaderProvider, DumperProvider):
 
             # since True == 1 and False == 0
             def literal_loader_sc(data):
-                if (type(data), data) in allowed_values_with_types:
-                    return data
+                try:
+                    if (type(data), data) in allowed_values_with_types:
+                        return data
+                except TypeError:  # unhashable data can not be looked up in a set
+                    pass
                 raise BadVariantLoadError(allowed_values_repr, data)
 
             return self._get_literal_loader_with_enum(
@@ -272,8 +275,11 @@ class LiteralProvider(LoaderProvider, DumperProvider):
         allowed_values = self._get_allowed_values_collection(cases)
 
         def literal_loader(data):
-            if data in allowed_values:
-                return data
+            try:
+                if data in allowed_values:
+                    return data
+            except TypeError:  # unhashable data can not be looked up in a set
+                pass
             raise BadVariantLoadError(allowed_values_repr, data)
 
         if bytes_cases and not enum_loaders:
